@@ -14,11 +14,21 @@ def callStr : Impl.Call × Impl.Res → String
 
 def handleVarFs (op : String) (args : List String) : Option String :=
   match op, args with
-  | "fs.write", dir :: name :: a :: b :: c :: d :: attrs :: value :: _ => do
+  | "fs.write", dir :: name :: a :: b :: c :: d :: attrs :: value :: rest => do
     let dirS ← strOfHexUtf8 dir
     let nameS ← strOfHexUtf8 name
     let (g, _) ← guidArgs [a, b, c, d]
-    let (res, tr) := (Impl.writeVar dirS nameS.toList g (natArg attrs) (unhex value)).run (Impl.fileEnv none) 0
+    -- optional: the index of the call that fails and how ("error", "short1", "short0")
+    let env : Nat → Impl.Call → Impl.Res := match rest with
+      | k :: kind :: _ => fun i c =>
+          if i == natArg k then
+            (match kind, c with
+             | "short1", .write b => .wrote (b.length - 1)
+             | "short0", .write _ => .wrote 0
+             | _, _ => .fail)
+          else Impl.fileEnv none i c
+      | _ => Impl.fileEnv none
+    let (res, tr) := (Impl.writeVar dirS nameS.toList g (natArg attrs) (unhex value)).run env 0
     pure (res.cls ++ " " ++ " ".intercalate (tr.map callStr))
   | "fs.read", dir :: name :: a :: b :: c :: d :: required :: file :: _ => do
     let dirS ← strOfHexUtf8 dir
